@@ -281,6 +281,9 @@ def pureStep (c : Cache) (l : String) : Cache × String :=
   | "hash" => (c, "ok " ++ String.ofList (hashOf sha (strTok (g 1)) (parseVD (g 2))))
   | "fhash" => (c, "ok " ++ String.ofList (hashOf sha (strTok (g 1)) (parseVD (g 2))))
   | "trim" => (c, "ok " ++ encStr (trimHexZeroes (strTok (g 1))))
+  | "ownerof" =>
+    let r := ownerOfCall (strTok (g 1)) (strTok (g 2))
+    (c, "ok to=" ++ encStr r.1 ++ " data=" ++ encStr r.2)
   | "fmtentry" => (c, match feederEntry (strTok (g 1)) (strTok (g 2)) with
       | some e => "ok " ++ encStr e
       | none => "err")
